@@ -357,19 +357,42 @@ func randScalar(r *prng.Rng, fd protoreflect.FieldDescriptor) protoreflect.Value
 	case protoreflect.DoubleKind:
 		return protoreflect.ValueOfFloat64(floatFrom64(r, u))
 	case protoreflect.StringKind:
-		n := []int{0, 1, 3, 12, 130}[r.Intn(5)]
+		n := blobLen(r)
 		b := make([]byte, n)
 		for i := range b {
 			b[i] = byte(32 + r.Intn(95))
 		}
 		return protoreflect.ValueOfString(string(b))
 	case protoreflect.BytesKind:
-		return protoreflect.ValueOfBytes(r.Bytes([]int{0, 1, 3, 12, 130}[r.Intn(5)]))
+		return protoreflect.ValueOfBytes(r.Bytes(blobLen(r)))
 	case protoreflect.EnumKind:
 		vs := fd.Enum().Values()
 		return protoreflect.ValueOfEnum(vs.Get(r.Intn(vs.Len())).Number())
 	}
 	panic("gencheck: scalar kind " + fd.Kind().String())
+}
+
+// bigOK rations the very large values (a list / blob beyond 16 KiB): at most one in 60 candidate draws.
+var bigDraws, lastBig = 0, -1000
+
+func bigOK() bool {
+	bigDraws++
+	if bigDraws-lastBig < 60 {
+		return false
+	}
+	lastBig = bigDraws
+	return true
+}
+
+// blobLen: string / bytes lengths around the one-byte length limit, rarely beyond the two-byte one.
+func blobLen(r *prng.Rng) int {
+	switch {
+	case r.Chance(1, 60) && bigOK():
+		return 16383 + r.Intn(3)
+	case r.Chance(1, 6):
+		return 126 + r.Intn(4)
+	}
+	return []int{0, 1, 3, 12, 130}[r.Intn(5)]
 }
 
 func randMessage(r *prng.Rng, md protoreflect.MessageDescriptor, o genOpts) *dynamicpb.Message {
@@ -412,7 +435,15 @@ func randMessage(r *prng.Rng, md protoreflect.MessageDescriptor, o genOpts) *dyn
 			}
 		case fd.IsList():
 			l := m.Mutable(fd).List()
-			for n := []int{0, 1, 2, 3, 5}[r.Intn(5)]; n > 0; n-- {
+			n := []int{0, 1, 2, 3, 5}[r.Intn(5)]
+			if fd.Kind() != protoreflect.MessageKind && r.Chance(1, 6) {
+				// scalar lists whose payload crosses the 1-byte (and, rarely, the 2-byte) length limit
+				n = []int{13, 16, 17, 31, 32, 33, 64, 127, 128, 130, 300}[r.Intn(11)]
+				if r.Chance(1, 12) && bigOK() {
+					n = 2100 // payload beyond the two-byte length limit (the list-based model is slow on these: rationed)
+				}
+			}
+			for ; n > 0; n-- {
 				if fd.Kind() == protoreflect.MessageKind {
 					l.Append(protoreflect.ValueOfMessage(subMessage(r, fd.Message(), o)))
 				} else {
